@@ -3,3 +3,6 @@ pub mod harness;
 pub mod refcodec;
 pub mod refnames;
 pub mod report;
+pub mod scen;
+pub mod bfs;
+pub mod world;
